@@ -172,6 +172,31 @@ pub fn run_session(env: &Env, class: Class, rng: &mut Rng) -> SessOut {
             finish(c, rst);
             out(if w.completed == ids.len() { "h2_goaway_streams_completed" } else { "h2_goaway_streams_cut" })
         }
+        Class::H2BackendDies => {
+            // several concurrent streams whose backend connections die with the request in flight
+            let mut ids = Vec::new();
+            for _ in 0..rng.urange(2, 5) {
+                let (host, path) = match rng.below(6) {
+                    0 => ("a.test", "/early_close".to_owned()),
+                    1 => ("a.test", "/rst_before".to_owned()),
+                    2 => ("a.test", format!("/close_mid?len={}", rng.urange(100, 30_000))),
+                    3 => ("a.test", format!("/rst_mid?len={}", rng.urange(100, 30_000))),
+                    4 => ("h2c.test", "/die".to_owned()),
+                    _ => ("h2c.test", "/die_mid".to_owned()),
+                };
+                if let Some(s) = get(&mut c, host, &path) {
+                    ids.push(s);
+                }
+            }
+            let w = await_streams(&mut c, &ids, deadline);
+            // the connection must still serve
+            let after = match get(&mut c, "a.test", "/ok?len=3") {
+                Some(s2) => await_streams(&mut c, &[s2], deadline).completed,
+                None => 0,
+            };
+            finish(c, rst);
+            out(if w.completed + w.reset == ids.len() && !ids.is_empty() { "h2_front_backends_killed_in_flight" } else if after == 1 { "h2_front_backends_killed_some_unanswered" } else { "h2_front_backends_killed_connection_lost" })
+        }
         Class::H2DropOpenStreams => {
             let mut n = 0;
             for _ in 0..rng.urange(1, 5) {
